@@ -707,6 +707,7 @@ def procedures(ctx):
         ('on_hci_remote_name_request_command', any_of(ctor('HCI_Remote_Name_Request_Complete_Event'), send_pdu('LmpNameReq')), 'remote name request'),
         ('on_hci_le_enable_encryption_command', any_of(ctor('HCI_Encryption_Change_Event', 'HCI_Encryption_Change_V2_Event'), send_pdu('EncReq'), link_call('on_connection_encrypted')), 'LE enable encryption'),
         ('on_hci_le_create_cis_command', any_of(ctor('HCI_LE_CIS_Established_Event'), send_pdu('CisReq'), link_call('create_cis')), 'LE create CIS'),
+        ('on_hci_accept_connection_request_command', any_of(ctor('HCI_Connection_Complete_Event'), method_ref('on_classic_connection_complete'), lambda n: isinstance(n, ast.Call) and call_attr(n) == 'add_done_callback'), 'classic accept connection'),
     ]
     for hname, pred, label in PROCS:
         fn = ctl.methods.get(hname)
